@@ -1459,29 +1459,19 @@ class CircuitTemplate(AbstractBaseTemplate):
         if depth > self._depth:
             raise ValueError('Input depth does not match the hierarchical depth of the circuit.')
 
-        path = []
-        input_circuits = {}
-        inp_circuit = input_circuits
-        net = self
-        for i in range(depth):
-            circuit_key = f"input_lvl_{i}"
-            if circuit_key not in net.circuits:
-                c = CircuitTemplate(name=circuit_key, path='none')
-                net = net.update_template(circuits={circuit_key: c})
-                inp_circuit[circuit_key] = {}
+        # the input node lives at the same depth as all other nodes: input_lvl_0/.../input_lvl_<depth-1>/<node_key>
+        path = [f"input_lvl_{i}" for i in range(depth)]
+
+        def add_level(net: CircuitTemplate, level: int) -> CircuitTemplate:
+            key = path[level]
+            sub = net.circuits[key] if key in net.circuits else CircuitTemplate(name=key, path='none')
+            if level == depth - 1:
+                sub = sub.update_template(nodes={node_key: node})
             else:
-                inp_circuit[circuit_key] = net.circuits[circuit_key]
-            net = net.circuits[circuit_key]
-            if i < depth - 1:
-                inp_circuit = inp_circuit[circuit_key]
-            else:
-                net = net.update_template(nodes={node_key: node})
-                inp_circuit[circuit_key] = net
-            path.append(circuit_key)
-        else:
-            net = net.update_template(nodes={node_key: node})
-        if depth > 0:
-            net = self.update_template(circuits=input_circuits)
+                sub = add_level(sub, level + 1)
+            return net.update_template(circuits={key: sub})
+
+        net = add_level(self, 0) if depth > 0 else self.update_template(nodes={node_key: node})
         return "/".join(path + [node_key]), net
 
     def _get_nodes_with_var(self, var: tuple, nodes: list) -> list:
